@@ -91,3 +91,25 @@ Section SchedFacts.
       + cbn [fst]. apply IH in H. exact H.
   Qed.
 End SchedFacts.
+
+(* an invariant of the shared state that every executed instruction preserves holds after every
+   schedule, whatever the thread programs are *)
+Section SharedInvariant.
+  Variables St In : Type.
+  Variable exec : tid -> In -> St -> outcome St.
+  Variable P : St -> Prop.
+  Hypothesis Hexec : forall t i s s', P s -> exec t i s = Continue s' \/ exec t i s = Halt s' -> P s'.
+
+  Lemma step_shared_invariant t (c : cfg St In) : P (shared c) -> P (shared (step exec t c)).
+  Proof.
+    intro H. destruct (step_cases _ _ exec t c) as [Hsame|(i & rest & Hn & [(s & Hx & Hs)|(s & Hx & Hs)])].
+    - now rewrite Hsame.
+    - rewrite Hs. cbn. eapply Hexec; eauto.
+    - rewrite Hs. cbn. eapply Hexec; eauto.
+  Qed.
+
+  Lemma run_shared_invariant sched (c : cfg St In) : P (shared c) -> P (shared (run exec sched c)).
+  Proof.
+    revert c; induction sched as [|t r IH]; intros c H; cbn; auto using step_shared_invariant.
+  Qed.
+End SharedInvariant.
